@@ -170,14 +170,17 @@ CutViol(e) ==
     (IF e.ncalls # 0 THEN {"C08/backend/truncated-request-dispatched/" \o tag,
                            \* in terms of C05: the handler was invoked with bytes that were never received
                            "C05/handler-invoked-for-truncated-request/c=" \o Str(e.c)} ELSE {})
-    \cup (IF e.nout # 0 THEN {"C08/backend/truncated-request-answered/" \o tag} ELSE {})
+    \cup (IF e.nout # 0 /\ ~e.reset THEN {"C08/backend/truncated-request-answered/" \o tag} ELSE {})
     \cup (IF e.res = "ok" THEN {"C08/backend/truncation-not-reported/" \o tag}
           ELSE IF e.res = "panic" THEN {"C05/panic/c=" \o Str(e.c) \o "/var=cut"}
           ELSE IF e.res \notin {"err:Disconnected", "err:PartialMessage", "err:InvalidMessage", "err:SocketBroken", "err:SocketError"}
                   /\ e.res \notin {"err:InactiveOperation", "err:InactiveFeature", "err:InvalidParam", "err:IncorrectFds"}
                THEN {"C08/backend/blocked-on-truncated-stream/" \o tag}
+          \* a peer that went away abruptly (connection reset): at a message boundary either a clean disconnect or a broken
+          \* socket may be reported, inside a message never a clean disconnect; the reply it left unread is not judged
+          ELSE IF e.reset /\ e.cut = 0 THEN {}
           ELSE IF e.cut = 0 /\ e.res # "err:Disconnected" THEN {"C08/backend/boundary-eof-not-disconnected/" \o tag}
-          ELSE IF e.cut > 0 /\ e.res = "err:Disconnected" THEN {"C08/backend/mid-message-eof-reported-as-clean-disconnect/" \o tag}
+          ELSE IF e.cut > 0 /\ e.res = "err:Disconnected" THEN {"C08/backend/mid-message-eof-reported-as-clean-disconnect/" \o tag \o (IF e.reset THEN "/after-reset" ELSE "")}
           ELSE {})
 
 TVReq == /\ l <= Len(Rec) /\ Rec[l].ev = "req"
